@@ -1,6 +1,6 @@
 ---------------------------- MODULE MC_RepoFiles ----------------------------
 (* Model-checking wrapper for RepoFiles.                                   *)
-EXTENDS RepoFiles, PubNames, Json
+EXTENDS RepoFiles, PubServerNames, Json
 
 PubsOne == {A}
 UrisOne == {<<"a", "x">>, <<"a", "y">>}
